@@ -69,10 +69,12 @@ def options(kind: str, ad, tier: str) -> list:
     if t == 'text':
         if ad.multi:
             return [['text A', 'text B'], 'scalar text', [], ['one'], ['v%d' % i for i in range(128)],
-                    ['w%d' % i for i in range(200)], ['', 'x' * 128]]
-        return ['Some text', '', 'x' * 127, 'x' * 128, 'y' * 300] + (['z' * 16383, 'z' * 16384, 'z' * 16385] if big else [])
+                    ['w%d' % i for i in range(200)], ['', 'x' * 128], ['ends ', ' starts', '12', '1E5'],
+                    ['t%d' % i for i in range(15)], ['t%d' % i for i in range(16)], ['t%d' % i for i in range(17)]]
+        return ['Some text', '', 'x' * 127, 'x' * 128, 'y' * 300, 'ends with a blank ', ' starts with a blank', '12.5', '007',
+                '1E5', 'two  blanks', 'line\nbreak'] + (['z' * 16383, 'z' * 16384, 'z' * 16385] if big else [])
     if t == 'ident':
-        return ['IDENT-1', 'a', 'I' * 127, 'I' * 128, 'I' * 255]
+        return ['IDENT-1', 'a', 'I' * 127, 'I' * 128, 'I' * 255, 'TRAILING ', ' LEADING', '12', '1E5']
     if t == 'enum':
         table = {
             ('calibration_measurement', 'phase'): ['BEFORE', 'AFTER', {'$enum': ['CalibrationMeasurementPhase', 'MASTER'], 'v': 'MASTER'}],
@@ -91,7 +93,8 @@ def options(kind: str, ad, tier: str) -> list:
             return [[[1.5]], [[1.5, 2.5]], [[1.5, 2.5], [3.5, 4.5]], [1.5], [], 2.5, [[NEG_ZERO]], [[float(i)] for i in range(128)]]
         if ad.multi:
             return [[1.5], [1.5, -2.0], [], 3.25, [NEG_ZERO], [INF, NAN], [float(i) for i in range(128)],
-                    [float(i) for i in range(200)], [7]]
+                    [float(i) for i in range(200)], [7], [float(i) for i in range(15)], [float(i) for i in range(16)],
+                    [i - 8 for i in range(17)], [NEG_ZERO] * 16 + [INF, NAN]]
         return [1.5, 0, -3, NEG_ZERO, INF, NAN, {'$f': '7fefffffffffffff'}, {'$f': '0000000000000001'}, 7,
                 {'$np': ['float32', 0.5]}, {'$np': ['int16', -5]}]
     if t == 'int':
